@@ -1,0 +1,134 @@
+//go:build verif && (verif_all || verif_c10)
+// +build verif
+// +build verif_all verif_c10
+
+package gocql
+
+// Verification hooks for C10 (replica placement, build tag `verif`): thin exported wrappers
+// over newTokenRing, tokenRing.GetHostForToken, getStrategy, placementStrategy.replicaMap and
+// tokenRingReplicas.replicasFor so that the external verification harness can call them. Add-only.
+
+import (
+	"fmt"
+	"net"
+	"sort"
+	"strings"
+)
+
+// VerifC10Host describes one node of a generated cluster.
+type VerifC10Host struct {
+	ID     int
+	DC     string
+	Rack   string
+	Tokens []string
+}
+
+// VerifC10Cluster holds the token ring built by newTokenRing.
+type VerifC10Cluster struct {
+	ring  *tokenRing
+	hosts []*HostInfo
+}
+
+// VerifC10Replicas holds a replica map built by placementStrategy.replicaMap.
+type VerifC10Replicas struct {
+	c  *VerifC10Cluster
+	rr tokenRingReplicas
+}
+
+// VerifC10NewCluster calls newTokenRing(partitioner, hosts) with one *HostInfo per entry, in the given order.
+func VerifC10NewCluster(partitioner string, hs []VerifC10Host) (*VerifC10Cluster, error) {
+	hosts := make([]*HostInfo, len(hs))
+	for i, h := range hs {
+		hosts[i] = &HostInfo{
+			hostId:         fmt.Sprint(h.ID),
+			dataCenter:     h.DC,
+			rack:           h.Rack,
+			tokens:         h.Tokens,
+			connectAddress: net.IPv4(10, byte(h.ID>>16), byte(h.ID>>8), byte(h.ID)),
+			port:           9042,
+			state:          NodeUp,
+		}
+	}
+	tr, err := newTokenRing(partitioner, hosts)
+	if err != nil {
+		return nil, err
+	}
+	return &VerifC10Cluster{ring: tr, hosts: hosts}, nil
+}
+
+// Ring returns the sorted ring as "token:hostid" entries.
+func (c *VerifC10Cluster) Ring() []string {
+	out := make([]string, len(c.ring.tokens))
+	for i, ht := range c.ring.tokens {
+		out[i] = ht.token.String() + ":" + ht.host.HostID()
+	}
+	return out
+}
+
+// HostForToken calls tokenRing.GetHostForToken; "" when it returns nil.
+func (c *VerifC10Cluster) HostForToken(tok string) (hostID string, endToken string) {
+	h, end := c.ring.GetHostForToken(c.ring.partitioner.ParseString(tok))
+	if h == nil {
+		return "", ""
+	}
+	return h.HostID(), end.String()
+}
+
+type verifC10NopLogger struct{}
+
+func (verifC10NopLogger) Print(v ...interface{})                 {}
+func (verifC10NopLogger) Printf(format string, v ...interface{}) {}
+func (verifC10NopLogger) Println(v ...interface{})               {}
+
+// VerifC10Strategy describes what getStrategy returns for the keyspace options.
+func VerifC10Strategy(class string, opts map[string]interface{}) string {
+	s := getStrategy(&KeyspaceMetadata{Name: "ks", StrategyClass: class, StrategyOptions: opts}, verifC10NopLogger{})
+	switch v := s.(type) {
+	case nil:
+		return "nil"
+	case *simpleStrategy:
+		return fmt.Sprintf("simple rf=%d", v.rf)
+	case *networkTopology:
+		items := make([]string, 0, len(v.dcs))
+		for dc, rf := range v.dcs {
+			items = append(items, fmt.Sprintf("%s=%d", dc, rf))
+		}
+		sort.Strings(items)
+		return "nts " + strings.Join(items, ",")
+	}
+	return fmt.Sprintf("unknown %T", s)
+}
+
+// ReplicaMap runs getStrategy(...).replicaMap(ring); nil when getStrategy returns nil. Panics propagate.
+func (c *VerifC10Cluster) ReplicaMap(class string, opts map[string]interface{}) *VerifC10Replicas {
+	s := getStrategy(&KeyspaceMetadata{Name: "ks", StrategyClass: class, StrategyOptions: opts}, verifC10NopLogger{})
+	if s == nil {
+		return nil
+	}
+	return &VerifC10Replicas{c: c, rr: s.replicaMap(c.ring)}
+}
+
+func verifC10IDs(hs []*HostInfo) []string {
+	out := make([]string, len(hs))
+	for i, h := range hs {
+		out[i] = h.HostID()
+	}
+	return out
+}
+
+// Len is the number of entries of the replica map.
+func (r *VerifC10Replicas) Len() int { return len(r.rr) }
+
+// Entry returns token and replica host ids of entry i.
+func (r *VerifC10Replicas) Entry(i int) (string, []string) {
+	return r.rr[i].token.String(), verifC10IDs(r.rr[i].hosts)
+}
+
+// ReplicasFor calls tokenRingReplicas.replicasFor; ok=false when it returns nil.
+func (r *VerifC10Replicas) ReplicasFor(tok string) (ids []string, ok bool) {
+	ht := r.rr.replicasFor(r.c.ring.partitioner.ParseString(tok))
+	if ht == nil {
+		return nil, false
+	}
+	return verifC10IDs(ht.hosts), true
+}
